@@ -305,14 +305,32 @@ def update : V → List Step → V → Option V
       | none => none
       | some c' => setChild v s c'
 
+def isPrefix : List Step → List Step → Bool
+  | [], _ => true
+  | _ :: _, [] => false
+  | a :: as, b :: bs => a == b && isPrefix as bs
+
+/-- what the object at `dp` looks like while `cif_value_clone` copies the source at `sp` onto it: the target has been
+    cleaned (unknown value) — except when the source is a *list that contains the target*: `cif_value_clone_list` turns
+    the target into an empty list first and appends the cloned elements one by one, so while element `j` (the one that
+    contains the target) is being cloned the target already holds the clones of elements `0 … j-1`. -/
+def targetWhileCloning (root : V) (sp dp : List Step) : V :=
+  if isPrefix sp dp then
+    match resolve root sp, dp.drop sp.length with
+    | some (.lst vs), .idx j :: _ => .lst (vs.take j)
+    | _, _ => .unk
+  else .unk
+
 /-- `cif_value_clone(src, &dst)` **as written** when `dst` is an existing object located at path `dp` of a root and
     `src` is located at path `sp` of the same root: the C cleans `*dst` first and reads `src` afterwards.
       * `sp = dp` (the same object): the object has just been cleaned, so it is "cloned" from the unknown value;
       * `dp` a proper prefix of `sp` (`src` is a member of `dst`): `src` was released by the clean ↦ `none`
         (the C reads freed memory);
-      * otherwise (`src` unrelated to `dst`, or an ancestor of it): the source is read with `dst` already cleaned. -/
+      * `sp` a proper prefix of `dp` (`dst` is a member of `src`): the source is read while the target is in the state
+        `targetWhileCloning`;
+      * otherwise (`src` unrelated to `dst`): an ordinary copy. -/
 def cloneOnto (root : V) (sp dp : List Step) : Option V :=
-  match update root dp .unk with
+  match update root dp (targetWhileCloning root sp dp) with
   | none => none
   | some root' =>
     match resolve root' sp with
